@@ -2,7 +2,7 @@
    Print Assumptions. Models: coq/C07/Model.v (tied to /repo by the correspondence check). *)
 From Coq Require Import List NArith ZArith Bool.
 From LTV Require Import Common.Bytes.
-From LTV.C07 Require Import Model Proofs ProofsDec ProofsSafe ProofsRT ProofsFaith ProofsAgree.
+From LTV.C07 Require Import Model Proofs ProofsDec ProofsSafe ProofsRT ProofsFaith ProofsAgree ProofsSkip.
 Import ListNotations.
 Local Open Scope N_scope.
 
@@ -24,6 +24,14 @@ Example enc_dec_c_nonvacuous :
   let v := VMap [([97], VList [VInt (-5); VStr [0; 255]]); ([98], VInt 9223372036854775807)] in
   wf v /\ height v < depth_limit_c /\ decode_c (enc v ++ [120]) = Ok (v, false) [120].
 Proof. cbn [wf height]. repeat split; try reflexivity; vm_compute; reflexivity. Qed.
+
+(* Round trip, skip reader (used for unknown keys and raw values by the static-map reader): skipping
+   the encoding of a well-formed tree nested below the 128-level stack consumes exactly the encoding *)
+Theorem enc_skip : forall v r,
+  wf v -> height v < skip_stack_limit -> N.of_nat (length (enc v ++ r)) < two32 ->
+  skip_c (enc v ++ r) = Ok tt r.
+Proof. exact ProofsSkip.enc_skip. Qed.
+Print Assumptions enc_skip.
 
 (* Canonical output: the encoding of a well-formed tree is canonical bencode (minimal decimal
    integers and lengths, keys strictly increasing) *)
